@@ -12,37 +12,37 @@ Proof. induction l as [|y l IHl]; intros [|i] x Hi; cbn in *; try lia; auto. app
 
 (* ------------------------------------------------------------ is_dirty *)
 (* the first four rules of private_is_dirty, in order *)
-Lemma is_dirty_failed fuel runid w c f r mx seen :
+Lemma is_dirty_failed fuel runid cyc w c f r mx seen :
   existsb (Nat.eqb f) seen = false ->
   r_failed r <> None ->
-  is_dirty (S fuel) runid w c f r mx seen = Ret (VDirty, w, c, []).
+  is_dirty (S fuel) runid cyc w c f r mx seen = Ret (VDirty, w, c, []).
 Proof.
   intros Hs Hf. cbn [is_dirty]. rewrite Hs.
   destruct (r_failed r); [reflexivity|congruence].
 Qed.
 
-Lemma is_dirty_never_built fuel runid w c f r mx seen :
+Lemma is_dirty_never_built fuel runid cyc w c f r mx seen :
   existsb (Nat.eqb f) seen = false ->
   r_changed r = None ->
-  is_dirty (S fuel) runid w c f r mx seen = Ret (VDirty, w, c, []).
+  is_dirty (S fuel) runid cyc w c f r mx seen = Ret (VDirty, w, c, []).
 Proof.
   intros Hs Hc. cbn [is_dirty]. rewrite Hs, Hc.
   destruct (r_failed r); reflexivity.
 Qed.
 
-Lemma is_dirty_newer fuel runid w c f r mx seen chg :
+Lemma is_dirty_newer fuel runid cyc w c f r mx seen chg :
   existsb (Nat.eqb f) seen = false ->
   r_failed r = None ->
   r_changed r = Some chg -> (mx < chg)%Z ->
-  is_dirty (S fuel) runid w c f r mx seen = Ret (VDirty, w, c, []).
+  is_dirty (S fuel) runid cyc w c f r mx seen = Ret (VDirty, w, c, []).
 Proof.
   intros Hs Hf Hc Hlt. cbn [is_dirty]. rewrite Hs, Hf, Hc.
   apply Z.ltb_lt in Hlt. now rewrite Hlt.
 Qed.
 
-Lemma is_dirty_cycle fuel runid w c f r mx seen :
+Lemma is_dirty_cycle fuel runid cyc w c f r mx seen :
   existsb (Nat.eqb f) seen = true ->
-  is_dirty (S fuel) runid w c f r mx seen = Ret (VCycle, w, c, []).
+  is_dirty (S fuel) runid cyc w c f r mx seen = Ret (VCycle, w, c, []).
 Proof. intros Hs. cbn [is_dirty]. now rewrite Hs. Qed.
 
 (* a property I of worlds kept by every sub-check (of the edges in the list,
@@ -91,10 +91,10 @@ Proof.
 Qed.
 
 (* is_dirty never touches a file: only the database may change *)
-Lemma is_dirty_fs : forall fuel runid w c f r mx seen v w' c' evs,
-  is_dirty fuel runid w c f r mx seen = Ret (v, w', c', evs) -> fs w' = fs w.
+Lemma is_dirty_fs : forall fuel runid cyc w c f r mx seen v w' c' evs,
+  is_dirty fuel runid cyc w c f r mx seen = Ret (v, w', c', evs) -> fs w' = fs w.
 Proof.
-  induction fuel as [|fuel IH]; intros runid w c f r mx seen v w' c' evs H; [discriminate|].
+  induction fuel as [|fuel IH]; intros runid cyc w c f r mx seen v w' c' evs H; [discriminate|].
   cbn [is_dirty] in H.
   destruct (existsb (Nat.eqb f) seen); [inversion H; reflexivity|].
   destruct (r_failed r); [inversion H; reflexivity|].
@@ -106,7 +106,9 @@ Proof.
   { inversion H; subst. unfold forget_missing.
     destruct (read_stamp w (r_name r)); [destruct (r_gen r)|]; reflexivity. }
   eapply (walk_deps_inv (fun w1 => fs w1 = fs w) (fun _ _ => True)); [| |apply Forall_trivial|reflexivity|exact H].
-  - intros w1 c1 d rs v1 w1' c1' e1 _ Hw1 E. rewrite <- Hw1. eapply IH; exact E.
+  - intros w1 c1 d rs v1 w1' c1' e1 _ Hw1 E. cbv beta in E.
+    destruct (existsb (Nat.eqb (d_source d)) cyc); [inversion E; subst; exact Hw1|].
+    rewrite <- Hw1. eapply IH; exact E.
   - intros w1 Hw1. exact Hw1.
 Qed.
 
@@ -296,10 +298,10 @@ Proof.
 Qed.
 
 (* a dependency met again while it is being checked is a cycle *)
-Lemma is_dirty_cycle_detected fuel runid w c f r mx seen :
+Lemma is_dirty_cycle_detected fuel runid cyc w c f r mx seen :
   existsb (Nat.eqb f) seen = true ->
-  is_dirty (S fuel) runid w c f r mx seen = Ret (VCycle, w, c, []).
-Proof. exact (is_dirty_cycle fuel runid w c f r mx seen). Qed.
+  is_dirty (S fuel) runid cyc w c f r mx seen = Ret (VCycle, w, c, []).
+Proof. exact (is_dirty_cycle fuel runid cyc w c f r mx seen). Qed.
 
 (* ------------------------------------------------------------ C05: propagation *)
 Lemma status_of_nonzero before after rc stdout has_tmp :
@@ -406,3 +408,17 @@ Proof.
   rewrite Hlt. cbn [chk_is_checked]. rewrite Hd. cbn [app dbs set_db]. reflexivity.
 Qed.
 
+
+(* fix F66: a recorded dependency on a target that an ancestor of the checking
+   process is building is judged dirty without being looked at *)
+Lemma is_dirty_dep_in_mid_build : forall fuel runid cyc w c f r mx seen chg old d ds,
+  existsb (Nat.eqb f) seen = false -> r_failed r = None -> r_changed r = Some chg -> Z.ltb mx chg = false ->
+  chk_is_checked c runid r f = false -> r_stamp r = Some old -> stamp_eqb old (read_stamp w (r_name r)) = true ->
+  deps_of (dbs w) r f = d :: ds -> d_mode d = DModified -> existsb (Nat.eqb (d_source d)) cyc = true ->
+  is_dirty (S fuel) runid cyc w c f r mx seen
+  = Ret (match r_csum r with Some _ => VNeed [f] | None => VDirty end, w, c, nil).
+Proof.
+  intros fuel runid cyc w c f r mx seen chg old d ds Hs Hf Hc Hl Hk Hst Hok Hd Hm Hcy.
+  cbn [is_dirty]. rewrite Hs, Hf, Hc, Hl, Hk, Hst, Hok. cbn [negb]. unfold deps_rows. rewrite Hd.
+  cbn [map walk_deps]. rewrite Hm, Hcy. reflexivity.
+Qed.
